@@ -218,8 +218,15 @@ def harness(it, px, params):
             cfgs.append(('S', inner, tail))
         if not params.get('thorough') and sum(inner) >= 3:
             cfgs.append(('S', inner, 2))
+    # a freshly registered operator: symbolic two-character symbol or two-letter word; registered as infix, prefix or
+    # postfix operator; 'pre' = the same text is tokenized once *before* the registration (stale caches)
     for layout in ('a@b', 'a @ b', 'a@@b', '1@2', 'a@=b', '@a'):
-        cfgs.append(('R', layout, None))
+        cfgs.append(('R', layout, ('infix', False, 'sym')))
+        for kind in ('infix', 'prefix', 'postfix'):
+            cfgs.append(('R', layout, (kind, True, 'sym')))
+    for layout in ('a @ b', '1 @', '@ a', '1@', 'a @@ b'):
+        for kind in ('infix', 'prefix', 'postfix'):
+            cfgs.append(('R', layout, (kind, True, 'word')))
     k = pick_config(px, 'cfg', len(cfgs))
     fam, p1, p2 = cfgs[k]
     px.notes.append('%s %s %s' % (fam, p1, p2))
@@ -240,12 +247,18 @@ def harness(it, px, params):
             px.add(z3.ULE(b, z3.BitVecVal(0x7F, 8)))
         bs = [q] + inner + [q] + tail
     else:
+        kind, pre, alpha = p2
         c1 = px.bv('op1', 8)
         c2 = px.bv('op2', 8)
-        px.add(z3.Or([c1 == z3.BitVecVal(x, 8) for x in OPSTART]))
-        # second character: ASCII punctuation that is not a delimiter, quote, comma or semicolon
-        punct = [x for x in range(0x21, 0x7F) if not chr(x).isalnum() and x not in DELIMS and x not in b'"\',;_.']
-        px.add(z3.Or([c2 == z3.BitVecVal(x, 8) for x in punct]))
+        if alpha == 'sym':
+            px.add(z3.Or([c1 == z3.BitVecVal(x, 8) for x in OPSTART]))
+            # second character: ASCII punctuation that is not a delimiter, quote, comma or semicolon
+            punct = [x for x in range(0x21, 0x7F) if not chr(x).isalnum() and x not in DELIMS and x not in b'"\',;_.']
+            px.add(z3.Or([c2 == z3.BitVecVal(x, 8) for x in punct]))
+        else:
+            for c in (c1, c2):
+                px.add(z3.Or(z3.And(z3.UGE(c, z3.BitVecVal(0x61, 8)), z3.ULE(c, z3.BitVecVal(0x7A, 8))),
+                             z3.And(z3.UGE(c, z3.BitVecVal(0x41, 8)), z3.ULE(c, z3.BitVecVal(0x5A, 8)))))
         px.get_model()
         opname = Str((c1, c2))
         # the two-character operator must not already be a built-in one (we want a *new* registration)
@@ -253,15 +266,24 @@ def harness(it, px, params):
             if len(wd) == 2:
                 px.add(z3.Not(z3.And(c1 == wd[0], c2 == wd[1])))
         px.get_model()
-        it.call('register_infix_op', [opname, 100, Enum('InfixOpType', 0, 'CALC'), Enum('InfixOpAssociativity', 0, 'LEFT'),
-                                      ArcV(Cell(PyFn(lambda i, a: Ok(api.V_num(1, 0)), 'h'), 'h'))])
-        extra_words = [(c1, c2)]
         bs = []
         for ch in p1:
             if ch == '@':
                 bs += [c1, c2]
             else:
                 bs.append(ord(ch))
+        if pre:
+            api.tokenize(it, Str(tuple(bs)))
+            px.cover('tokenized-before-registration')
+        H = ArcV(Cell(PyFn(lambda i, a: Ok(api.V_num(1, 0)), 'h'), 'h'))
+        if kind == 'infix':
+            it.call('register_infix_op', [opname, 100, Enum('InfixOpType', 0, 'CALC'), Enum('InfixOpAssociativity', 0, 'LEFT'), H])
+        elif kind == 'prefix':
+            it.call('register_prefix_op', [opname, H])
+        else:
+            it.call('register_postfix_op', [opname, H])
+        px.cover('registered-' + kind)
+        extra_words = [(c1, c2)]
     px.get_model()
     words = registry_words(extra_words)
     rec = {'family': fam, 'len': len(bs)}
@@ -278,6 +300,7 @@ def harness(it, px, params):
     rec['witness'] = wit.hex()
     if fam == 'R':
         rec['op'] = px.eval_bytes(m, [extra_words[0][0], extra_words[0][1]]).hex()
+        rec['reg'] = [p2[0], p2[1]]
     px.cover('fam-' + fam)
     problems = []
     if t.kind not in ('ok', 'err'):
@@ -338,8 +361,10 @@ def harness(it, px, params):
     wit = px.eval_bytes(m, bs)
     rec['witness'] = wit.hex()
     for cause, desc in problems[:2]:
-        px.finding({'key': 'C10|%s|%s' % (cause, fam if fam != 'R' else 'R:' + p1), 'desc': '%r: %s' % (wit.decode('utf-8', 'replace'), desc),
-                    'witness': wit.hex(), 'op': rec.get('op'), 'cause': cause, 'family': fam})
+        px.finding({'key': 'C10|%s|%s' % (cause, fam if fam != 'R' else 'R:' + p1 + ':' + p2[0] + (':after-first-use' if p2[1] else '')),
+                    'desc': '%r%s: %s' % (wit.decode('utf-8', 'replace'), (' with %s registered as %s operator%s' % (
+                        bytes.fromhex(rec['op']).decode(), p2[0], ' after the text was tokenized once' if p2[1] else '')) if fam == 'R' else '', desc),
+                    'witness': wit.hex(), 'op': rec.get('op'), 'reg': rec.get('reg'), 'cause': cause, 'family': fam})
     return rec
 
 
@@ -358,10 +383,17 @@ def concrete_ref(text, op):
         return 'err'
 
 
-def scenario(wit, op):
+def scenario(wit, op, reg=None):
     steps = []
     if op:
-        steps.append({'op': 'register_infix', 'name': op, 'prec': 100, 'type': 'CALC', 'assoc': 'LEFT', 'handler': {'h': 'const', 'value': {'t': 'num', 'm': '1', 's': 0}}})
+        kind, pre = reg or ('infix', False)
+        if pre:
+            steps.append({'op': 'tokenize', 'hex': wit})
+        hs = {'h': 'const', 'value': {'t': 'num', 'm': '1', 's': 0}}
+        if kind == 'infix':
+            steps.append({'op': 'register_infix', 'name': op, 'prec': 100, 'type': 'CALC', 'assoc': 'LEFT', 'handler': hs})
+        else:
+            steps.append({'op': 'register_' + kind, 'name': op, 'handler': hs})
     steps.append({'op': 'tokenize', 'hex': wit})
     return steps
 
@@ -387,7 +419,7 @@ def run(ctx):
     covers = set()
     for r in recs:
         covers.update(r.get('covers', []))
-    for need in ('fam-U', 'fam-S', 'fam-R', 'ok', 'err'):
+    for need in ('fam-U', 'fam-S', 'fam-R', 'ok', 'err', 'tokenized-before-registration', 'registered-infix', 'registered-prefix', 'registered-postfix'):
         if need not in covers:
             inconclusive.append('vacuity: cover %s not reached' % need)
     groups = {}
@@ -399,7 +431,7 @@ def run(ctx):
     for key, fs in sorted(groups.items()):
         conf = None
         for f in sorted(fs, key=lambda f: (len(f['witness']), f['witness']))[:4]:
-            sc = scenario(f['witness'], f.get('op'))
+            sc = scenario(f['witness'], f.get('op'), f.get('reg'))
             od = ctx.native(sc, 'dev')[-1]
             validated += 1
             want = concrete_ref(bytes.fromhex(f['witness']), bytes.fromhex(f['op']) if f.get('op') else None)
@@ -441,13 +473,13 @@ def run(ctx):
             'states': max(1, summ['paths']), 'transitions': max(1, summ['decisions']),
             'traces_validated_against_impl': validated, 'samples': samples[:30], 'exhaustive': not summ.get('truncated') and not inconclusive,
             'bound': {'utf8_input_bytes_max': N, 'string_family': 'quote + <=2 characters (1-3 bytes each, symbolic) + quote + <=2 ASCII bytes',
-                      'registered_operator_family': 'two symbolic characters (operator-start char + ASCII punctuation) in layouts a@b, a @ b, a@@b, 1@2, a@=b, @a'},
+                      'registered_operator_family': 'two symbolic characters (operator-start char + ASCII punctuation; or two letters = a word operator) registered as infix / prefix / postfix operator, before first use and after the text was tokenized once, in layouts a@b, a @ b, a@@b, 1@2, a@=b, @a, 1 @, @ a, 1@, a @@ b'},
             'path_status': by_status,
             'solver': {'engine': 'z3 ' + z3.get_version_string(), 'queries_sat': summ['sat'], 'queries_unsat': summ['unsat'],
                        'queries_unknown': summ['unknown'], 'solver_s': round(summ['solver_s'], 2)},
             'mir_steps': summ['steps'], 'workers': summ['workers'],
             'functions_encoded': summ['bodies_used'], 'library_models_used': summ['models_used'], 'covers_hit': sorted(covers),
-            'outside': ['inputs longer than the bounds', 'registered word operators other than the built-in ones', 'registered symbolic operators longer than two characters'],
+            'outside': ['inputs longer than the bounds', 'registered operators longer than two characters'],
         },
         'assumptions': ['reference tokenizer = the documented lexical rules as written in this file (probe for word operators up to whitespace or a delimiter ()[]{}; identifier characters [0-9A-Za-z._] after an arbitrary first character; number run 0-9 . e E and +/- only after e/E)',
                         'library models validated by the conformance corpus and sampled native replays'],
